@@ -30,6 +30,8 @@ def enum_paths(body, start=0, limit=5000, max_visits=1, stop_blocks=()):
         else:
             for s in succ:
                 if cnt.get(s, 0) >= max_visits:
+                    # back edge of a loop: the iteration ends here; emit the path cut at the loop head
+                    out.append(list(path) + [s])
                     continue
                 rec(s, path, cnt)
         cnt[b] -= 1
@@ -46,6 +48,8 @@ class PathState:
         self.body = body
         self.prog = prog
         self.feasible = True
+        self.cut = False
+        self.cur = 0
         self.env = {}        # local -> expr ; ('f', local, fieldpath) -> expr for partial writes
         self.events = []     # ('call', Call, args_exprs) | ('branch', block, discr_expr, taken_value, target)
         for i in range(1, body.arg_count + 1):
@@ -92,6 +96,10 @@ class PathState:
         if op.get('k') == 'const':
             if 'fn' in op:
                 return ('fnconst', op['fn'])
+            if 'promoted' in op:
+                v = eval_promoted(self.body, op['promoted'])
+                if v is not None:
+                    return v
             return ('const', op.get('val'), op.get('s'))
         if is_place_op(op):
             return self.place(op['place'])
@@ -117,7 +125,7 @@ class PathState:
                     return ('refl', inner[1], inner[2] and rv.get('mut', False))
             return ('refm' if rv.get('mut') else 'ref', self.place(pl))
         if k == 'discr':
-            return ('discr', self.place(rv['place']))
+            return ('discr', self.place(rv['place']), rv.get('ty'))
         if k == 'agg':
             if rv['kind'] == 'adt':
                 return ('agg', rv['adt'], rv['variant'], tuple(self.operand(o) for o in rv['ops']), tuple(rv.get('fields', ())), rv.get('vi'))
@@ -132,6 +140,7 @@ class PathState:
         if not pl['p']:
             self.env[pl['l']] = e
         else:
+            self.events.append(('store', self.cur, pl, e))
             # partial write: remember checked-binop tuple fields and struct fields
             names = tuple(p['name'] for p in pl['p'] if p['k'] == 'field')
             if len(names) == len(pl['p']):
@@ -178,6 +187,7 @@ class PathState:
 
     def step_block(self, b, next_block):
         body = self.body
+        self.cur = b
         bl = body.blocks[b]
         for st in bl['stmts']:
             if st['s'] == 'assign':
@@ -214,6 +224,33 @@ class PathState:
                     self.feasible = False
         elif k == 'assert':
             pass
+
+
+_PROM_CACHE = {}
+
+
+def eval_promoted(body, idx):
+    """symbolic value of promoted constant #idx of `body` (a straight-line mini body)"""
+    key = (id(body.j), idx)
+    if key in _PROM_CACHE:
+        return _PROM_CACHE[key]
+    v = None
+    try:
+        pj = body.j['promoted'][idx]
+        from facts import Body
+        fake = Body({'path': body.path + '::promoted[%d]' % idx, 'kind': 'Promoted', 'blocks': pj['blocks'],
+                     'locals': pj['locals'], 'arg_count': 0, 'span': {'file': body.file, 'line': body.line}}, body.crate)
+        path = [0]
+        while fake.succ[path[-1]] and len(path) < 50:
+            path.append(fake.succ[path[-1]][0])
+        st = PathState(fake)
+        for i, b in enumerate(path):
+            st.step_block(b, path[i + 1] if i + 1 < len(path) else None)
+        v = st.deep(st.env.get(0))
+    except Exception:
+        v = None
+    _PROM_CACHE[key] = v
+    return v
 
 
 def root_mut_local(e):
@@ -259,9 +296,13 @@ def strip(e):
 
 def run_path(body, path, prog=None):
     st = PathState(body, prog)
-    for i, b in enumerate(path):
+    st.cut = len(path) > 1 and path[-1] in path[:-1]      # ends on a loop back edge
+    steps = path[:-1] if st.cut else path
+    for i, b in enumerate(steps):
         nxt = path[i + 1] if i + 1 < len(path) else None
         st.step_block(b, nxt)
+    if st.cut:
+        st.env[0] = ('unknown', 'loop-cut')
     return st
 
 
